@@ -28,12 +28,39 @@ type c13Case struct {
 	Corrupt int     `json:"corrupt"` // -1: secret as is; otherwise position (mod length) replaced by '!'
 }
 
+// corrupt makes a secret text undecodable in one of several ways (pos < 0: leave it alone):
+// a foreign character, an impossible length (alphabet characters only), padding in the
+// middle, a trailing stray character — each takes a different error path in the decoder.
 func corrupt(s string, pos int) string {
 	if pos < 0 || len(s) == 0 {
 		return s
 	}
+	bare := strings.TrimRight(strings.TrimSpace(s), "=")
+	switch pos % 4 {
+	case 1: // impossible length: cut alphabet-only text down to 1, 3 or 6 characters modulo 8
+		for len(bare) > 0 {
+			if r := len(bare) % 8; r == 1 || r == 3 || r == 6 {
+				return bare
+			}
+			bare = bare[:len(bare)-1]
+		}
+		return "A"
+	case 2: // padding in the middle
+		if len(bare) >= 4 {
+			k := 1 + (pos/4)%(len(bare)-2)
+			return bare[:k] + "=" + bare[k:]
+		}
+	case 3: // one character too many, then padded as if it were complete
+		t := bare + "A"
+		for len(t)%8 != 0 {
+			t += "="
+		}
+		if r := len(bare+"A") % 8; r == 1 || r == 3 || r == 6 {
+			return t
+		}
+	}
 	b := []byte(s)
-	b[pos%len(b)] = '!'
+	b[(pos/4)%len(b)] = '!'
 	return string(b)
 }
 
